@@ -103,10 +103,17 @@ def judge(args):
         hd, d = g.doc(p["doc"], n)
         if G.canon_doc(e.get("doc")) != G.canon_doc(d if hd else ""):
             fails.append(("back_doc", "{}: re-parsed description {!r} != {!r}".format(n, e.get("doc"), d)))
-    want_doc = {"absent": "", "one": "The summary line"}[i["doc"]]
-    if G.canon_doc(rb["doc"]) != G.canon_doc(want_doc) and i["ret"]["typ"] == "none":
+    want_doc = {"absent": "", "one": "The summary line", "multi": "The summary line\n\nA longer paragraph of prose."}[i["doc"]]
+    # paragraph by paragraph: indentation and line ends inside a paragraph are layout, the break between two paragraphs is prose
+    if _paragraphs(rb["doc"]) != _paragraphs(want_doc) and i["ret"]["typ"] == "none":
         fails.append(("back_doc", "re-parsed interface description {!r} != {!r}".format(rb["doc"], want_doc)))
     return res
+
+
+def _paragraphs(text):
+    import re
+
+    return [G.canon_doc(part) for part in re.split(r"\n[ \t]*\n", (text or "").strip()) if part.strip()]
 
 
 def _canon_typ(t):
